@@ -20,19 +20,28 @@ Fixpoint sorted (fs : list dfact) : Prop :=
   | [] => True
   | f :: r => (match f with TyAlias _ b => ~ In b (some_names r) | _ => True end) /\ sorted r
   end.
-Definition wf (fs : list dfact) : Prop := NoDup (names fs) /\ sorted fs.
+(* the declarations the transformation looks at: everything but the kinds it does not enter (those may repeat a name -- the
+   duplicate is diagnosed by a later stage) *)
+Definition relevant (f : dfact) : bool := match f with TyDecl _ None _ => false | _ => true end.
+Definition rnames (fs : list dfact) : list text := names (filter relevant fs).
+Definition wf (fs : list dfact) : Prop := NoDup (rnames fs) /\ sorted fs.
 
-Lemma same_name_same_fact fs f g : NoDup (names fs) -> In f fs -> In g fs -> fname f = fname g -> f = g.
+Lemma same_name_same_fact0 fs f g : NoDup (names fs) -> In f fs -> In g fs -> fname f = fname g -> f = g.
 Proof.
   induction fs as [|h fs IH]; intros Hn Hf Hg E; [destruct Hf|]. cbn [names map] in Hn. inversion Hn as [|x l Hx Hn']; subst.
   destruct Hf as [<- | Hf]; destruct Hg as [<- | Hg]; [reflexivity | | |apply IH; assumption].
   - exfalso. apply Hx. rewrite E. apply in_map. exact Hg.
   - exfalso. apply Hx. rewrite <- E. apply in_map. exact Hf.
 Qed.
+Lemma same_name_same_fact fs f g : NoDup (rnames fs) -> In f fs -> In g fs -> relevant f = true -> relevant g = true -> fname f = fname g -> f = g.
+Proof. intros Hn Hf Hg Rf Rg E. apply (same_name_same_fact0 (filter relevant fs)); [exact Hn | apply filter_In; auto | apply filter_In; auto | exact E]. Qed.
+
+Lemma rnames_app a b : rnames (a ++ b) = rnames a ++ rnames b.
+Proof. unfold rnames. rewrite filter_app. apply map_app. Qed.
 
 (* ---- the walk over a well-formed library ---- *)
 Record inv (pre : list dfact) (s : dstate) : Prop := mkInv {
-  i_nodes : forall n, node_data (d_nodes s) n <> None -> In n (names pre) \/ In n (bases pre);
+  i_nodes : forall n, node_data (d_nodes s) n <> None -> In n (rnames pre) \/ In n (bases pre);
   i_nodes2 : forall f, In f pre -> match f with TyDecl _ None _ => True | _ => node_data (d_nodes s) (fname f) <> None end;
   i_bases : forall n, In n (bases pre) -> node_data (d_nodes s) n <> None;
   i_edges : forall b a, In (b, a) (d_edges s) <-> In (TyAlias a b) pre;
@@ -66,21 +75,22 @@ Proof.
   destruct (text_eqb m n) eqn:E; [intros _; right; symmetry; apply text_eqb_eq; exact E | intro H; contradiction H; reflexivity].
 Qed.
 
-Lemma step_inv pre f rest s : inv pre s -> NoDup (names (pre ++ f :: rest)) -> sorted (pre ++ f :: rest) ->
+Lemma step_inv pre f rest s : inv pre s -> NoDup (rnames (pre ++ f :: rest)) -> sorted (pre ++ f :: rest) ->
   (forall b, In b (bases pre) -> ~ In b (some_names (f :: rest))) ->
   exists s', dstep s f = inl s' /\ inv (pre ++ [f]) s'.
 Proof.
   intros I Hnd Hso Hb. destruct I as [In1 In2 Ib Ie Ir].
-  assert (Hfresh : ~ In (fname f) (names pre)).
-  { rewrite names_app in Hnd. cbn [names map] in Hnd. apply NoDup_remove_2 in Hnd. intro H. apply Hnd. apply in_or_app. left. exact H. }
+  assert (Hfresh : relevant f = true -> ~ In (fname f) (rnames pre)).
+  { intro Rf. rewrite rnames_app in Hnd. unfold rnames at 2 in Hnd. cbn [filter] in Hnd. rewrite Rf in Hnd. cbn [names map] in Hnd.
+    apply NoDup_remove_2 in Hnd. intro H. apply Hnd. apply in_or_app. left. exact H. }
   destruct f as [n [k|] p|n b]; cbn [fname] in *.
   - (* a declared simple / enumeration / structure type: a new node and a root of its kind *)
     assert (Hnb : ~ In n (bases pre)) by (intro H; apply (Hb _ H); left; reflexivity).
     assert (Hnone : node_data (d_nodes s) n = None).
     { destruct (node_data (d_nodes s) n) eqn:E; [|reflexivity]. exfalso.
-      destruct (In1 n) as [H | H]; [rewrite E; discriminate | apply Hfresh; exact H | apply Hnb; exact H]. }
+      destruct (In1 n) as [H | H]; [rewrite E; discriminate | apply (Hfresh eq_refl); exact H | apply Hnb; exact H]. }
     eexists. cbn [dstep]. rewrite Hnone. split; [reflexivity|]. constructor; cbn [d_nodes d_edges d_roots].
-    + intros m Hm. rewrite node_data_app in Hm. rewrite names_app, bases_app. cbn [names map bases flat_map app].
+    + intros m Hm. rewrite node_data_app in Hm. rewrite rnames_app, bases_app. cbn [bases flat_map app]. unfold rnames at 2. cbn [filter relevant names map].
       destruct (node_data (d_nodes s) m) eqn:E.
       * destruct (In1 m) as [H | H]; [rewrite E; discriminate | left; apply in_or_app; left; exact H | right; rewrite app_nil_r; exact H].
       * destruct (text_eqb n m) eqn:E2; [|contradiction Hm; reflexivity]. apply text_eqb_eq in E2. subst. left. apply in_or_app. right. left. reflexivity.
@@ -98,8 +108,8 @@ Proof.
         -- injection H as <- <- <-. apply in_or_app. right. left. reflexivity.
   - (* a declaration the transformation does not enter *)
     exists s. split; [reflexivity|]. constructor.
-    + intros m Hm. rewrite names_app, bases_app. cbn [bases flat_map app]. rewrite app_nil_r.
-      destruct (In1 m Hm) as [H | H]; [left; apply in_or_app; left; exact H | right; exact H].
+    + intros m Hm. rewrite rnames_app, bases_app. cbn [bases flat_map app]. unfold rnames at 2. cbn [filter relevant names map]. rewrite !app_nil_r.
+      exact (In1 m Hm).
     + intros g Hg. apply in_app_or in Hg. destruct Hg as [Hg | [<- | []]]; [apply In2; exact Hg | exact I].
     + intros m Hm. rewrite bases_app in Hm. cbn [bases flat_map app] in Hm. rewrite app_nil_r in Hm. apply Ib. exact Hm.
     + intros b a. rewrite Ie. split; [intro H; apply in_or_app; left; exact H|]. intro H. apply in_app_or in H. destruct H as [H | [H | []]]; [exact H | discriminate H].
@@ -108,7 +118,7 @@ Proof.
       * apply in_app_or in H. destruct H as [H | [H | []]]; [exact H | discriminate H].
   - (* an alias: nodes for base and alias, an edge *)
     eexists. cbn [dstep]. split; [reflexivity|]. constructor; cbn [d_nodes d_edges d_roots].
-    + intros m Hm. rewrite names_app, bases_app. cbn [names map fname bases flat_map app].
+    + intros m Hm. rewrite rnames_app, bases_app. cbn [bases flat_map app]. unfold rnames at 2. cbn [filter relevant names map fname].
       apply add_node_inv in Hm. destruct Hm as [Hm | ->]; [|left; apply in_or_app; right; left; reflexivity].
       apply add_node_inv in Hm. destruct Hm as [Hm | ->]; [|right; apply in_or_app; right; left; reflexivity].
       destruct (In1 m Hm) as [H | H]; [left | right]; apply in_or_app; left; exact H.
@@ -137,7 +147,7 @@ Proof.
   intro H. apply Hg. unfold some_names. rewrite flat_map_app. apply in_or_app. right. exact H.
 Qed.
 
-Lemma walk_inv rest : forall pre s, inv pre s -> NoDup (names (pre ++ rest)) -> sorted (pre ++ rest) ->
+Lemma walk_inv rest : forall pre s, inv pre s -> NoDup (rnames (pre ++ rest)) -> sorted (pre ++ rest) ->
   exists s', dwalk s rest = inl s' /\ inv (pre ++ rest) s'.
 Proof.
   induction rest as [|f rest IH]; intros pre s I Hnd Hso.
@@ -154,15 +164,15 @@ Proof. intros (Hn & Hs). exact (walk_inv fs [] dinit0 inv_init Hn Hs). Qed.
 Lemma apath_epath fs s r x : (forall b a, In (b, a) (d_edges s) <-> In (TyAlias a b) fs) -> apath fs r x -> epath (d_edges s) r x.
 Proof. intros He Hp. induction Hp as [n|r b a _ IH Hin]; [apply ep_refl | eapply ep_step; [exact IH | apply He; exact Hin]]. Qed.
 
-Lemma root_unique fs r r' n : NoDup (names fs) -> apath fs r n -> apath fs r' n ->
-  (exists k p, In (TyDecl r k p) fs) -> (exists k p, In (TyDecl r' k p) fs) -> r = r'.
+Lemma root_unique fs r r' n : NoDup (rnames fs) -> apath fs r n -> apath fs r' n ->
+  (exists k p, In (TyDecl r (Some k) p) fs) -> (exists k p, In (TyDecl r' (Some k) p) fs) -> r = r'.
 Proof.
   intros Hn P. revert r'. induction P as [n|r b a P IH Hab]; intros r' P' (k & p & Hr) (k' & p' & Hr').
   - inversion P' as [|x b' a' _ Hab']; subst; [reflexivity|]. exfalso.
-    pose proof (same_name_same_fact fs (TyDecl n k p) (TyAlias n b') Hn Hr Hab' eq_refl) as X. discriminate X.
+    pose proof (same_name_same_fact fs (TyDecl n (Some k) p) (TyAlias n b') Hn Hr Hab' eq_refl eq_refl eq_refl) as X. discriminate X.
   - inversion P' as [|x b' a' P'' Hab']; subst.
-    + exfalso. pose proof (same_name_same_fact fs (TyDecl a k' p') (TyAlias a b) Hn Hr' Hab eq_refl) as X. discriminate X.
-    + pose proof (same_name_same_fact fs (TyAlias a b) (TyAlias a b') Hn Hab Hab' eq_refl) as X. injection X as <-.
+    + exfalso. pose proof (same_name_same_fact fs (TyDecl a (Some k') p') (TyAlias a b) Hn Hr' Hab eq_refl eq_refl eq_refl) as X. discriminate X.
+    + pose proof (same_name_same_fact fs (TyAlias a b) (TyAlias a b') Hn Hab Hab' eq_refl eq_refl eq_refl) as X. injection X as <-.
       apply IH; [exact P'' | exists k, p; exact Hr | exists k', p'; exact Hr'].
 Qed.
 
@@ -197,8 +207,8 @@ Proof.
   { unfold reach_from in Hreach'. eapply reach_sound; [intros b a Hba; apply Ie; exact Hba | | | exact Hreach'].
     - intros x [<- | []]. apply ap_refl.
     - intros x []. }
-  assert (E : r = r') by (apply (root_unique fs r r' n (proj1 Hwf) Hp P'); [exists (Some k), p; exact Hr | exists (Some k'), p'; exact Hdecl']).
-  subst r'. pose proof (same_name_same_fact fs _ _ (proj1 Hwf) Hr Hdecl' eq_refl) as X. injection X as <- _. reflexivity.
+  assert (E : r = r') by (apply (root_unique fs r r' n (proj1 Hwf) Hp P'); [exists k, p; exact Hr | exists k', p'; exact Hdecl']).
+  subst r'. pose proof (same_name_same_fact fs _ _ (proj1 Hwf) Hr Hdecl' eq_refl eq_refl eq_refl) as X. injection X as <- _. reflexivity.
 Qed.
 
 (* exactness on well-formed libraries: an alias is resolved to k exactly when a path connects it to a declaration of kind k *)
